@@ -132,14 +132,14 @@ type mcase struct {
 	useRef  bool   // --ref-seq (subseq, subsites)
 	refName string // the same row name in every alignment
 	stdout  string // of the last run
-	bin    string
-	dir    string
-	in     string
-	als    []*tal
-	strict bool     // --input-strict text
-	fmtOut []string // output layout flags
-	outStr bool     // --output-strict
-	desc   string
+	bin     string
+	dir     string
+	in      string
+	als     []*tal
+	strict  bool     // --input-strict text
+	fmtOut  []string // output layout flags
+	outStr  bool     // --output-strict
+	desc    string
 }
 
 func (m *mcase) show() string {
